@@ -75,6 +75,21 @@ def grep_gate():
     for m in re.finditer(r"^\s*(Variable|Hypothesis|Variables|Hypotheses)\b", "", flags=re.M): pass
     return bad
 
+def closure_key(rel):
+    """md5 over the sources of a .v file and of everything it (transitively) requires from this development."""
+    seen, todo, h = set(), [rel], hashlib.md5()
+    while todo:
+        r = todo.pop()
+        if r in seen: continue
+        seen.add(r)
+        path = os.path.join(COQ, r)
+        if not os.path.exists(path): continue
+        txt = open(path).read(); h.update(r.encode()); h.update(txt.encode())
+        for m in re.finditer(r"From\s+SK\s+Require\s+(?:Import\s+|Export\s+)?([^.]*(?:\.[A-Za-z_][\w]*)*)\s*\.", txt):
+            for mod in m.group(1).split():
+                todo.append(mod.replace(".", "/") + ".v")
+    return h.hexdigest()
+
 def proof_status(pid, files=None):
     """Compile Props/<pid>*.v (their dependencies are already built) and read, for every theorem,
     what Print Assumptions printed. Returns (theorems: dict name -> list of axioms, problems: list)."""
@@ -83,15 +98,15 @@ def proof_status(pid, files=None):
     for f in files:
         src = open(os.path.join(COQ, "Props", f)).read()
         names = re.findall(r"^\s*(?:Theorem)\s+(\w+)", src, flags=re.M)
-        # the output of Print Assumptions is cached next to the file and reused while nothing it depends on changed
+        # the output of Print Assumptions is cached, keyed by the sources of the file's transitive imports
         cache = os.path.join(COQ, "Props", f[:-2] + ".out")
-        newest = max(os.path.getmtime(os.path.join(dp, g)) for dp, _, gs in os.walk(COQ) for g in gs
-                     if g.endswith(".v") or (g.endswith(".vo") and "Props" not in dp))
-        if os.path.exists(cache) and os.path.getmtime(cache) >= newest and os.path.exists(os.path.join(COQ, "Props", f[:-2] + ".vo")):
-            rc, out, err = 0, open(cache).read(), ""
+        key = closure_key(os.path.join("Props", f))
+        cached = open(cache).read() if os.path.exists(cache) else ""
+        if cached.startswith("KEY " + key + "\n") and os.path.exists(os.path.join(COQ, "Props", f[:-2] + ".vo")):
+            rc, out, err = 0, cached.split("\n", 1)[1], ""
         else:
             rc, out, err = sh("timeout 1800 coqc -Q . SK Props/%s" % f, cwd=COQ)
-            if rc == 0: open(cache, "w").write(out)
+            if rc == 0: open(cache, "w").write("KEY " + key + "\n" + out)
         if rc != 0:
             problems.append("Props/%s does not compile: %s" % (f, (out + err)[-600:]))
             for n in names: theorems[n] = None
@@ -177,7 +192,22 @@ def instr_lines(lines):
     return [l for l in lines if l.strip() and not l.startswith("#")]
 
 def run_cases(pid, tag, cases):
-    """Runs all cases in one vrun/vmodel invocation. Returns list of (case, impl lines, sides, model lines)."""
+    """Runs all cases (sharded over the cores when large). Returns list of (case, impl lines, sides, model lines)."""
+    total = sum(len(instr_lines(c.lines)) + 1 for c in cases)
+    nshards = 1 if total < 4000 else min(16, len(cases))
+    if nshards > 1:
+        from concurrent.futures import ThreadPoolExecutor
+        shards = [[] for _ in range(nshards)]; sizes = [0] * nshards
+        order = sorted(range(len(cases)), key=lambda i: -len(cases[i].lines))
+        where = {}
+        for i in order:
+            j = sizes.index(min(sizes)); where[i] = (j, len(shards[j])); shards[j].append(cases[i]); sizes[j] += len(cases[i].lines) + 1
+        with ThreadPoolExecutor(nshards) as ex:
+            res = list(ex.map(lambda jt: _run_cases1(pid, "%s-%d" % (tag, jt[0]), jt[1]), enumerate(shards)))
+        return [res[where[i][0]][where[i][1]] for i in range(len(cases))]
+    return _run_cases1(pid, tag, cases)
+
+def _run_cases1(pid, tag, cases):
     script = []
     for c in cases:
         script.append("case " + c.name); script.extend(instr_lines(c.lines))
@@ -233,6 +263,8 @@ class Report:
         self.t0 = time.time(); self.violations = []; self.known = []; self.coverage = {}
         self.assumptions = []; self.notes = []
         os.makedirs(os.path.join(WORK, pid), exist_ok=True); os.makedirs(os.path.join(ROOT, "evidence"), exist_ok=True)
+        for f in os.listdir(os.path.join(WORK, pid)):
+            if f.endswith(".replay.json"): os.remove(os.path.join(WORK, pid, f))
     def violation(self, replay_name, content, found_input=True, key=None):
         """content: dict written as the replay file. key: signature matched against known findings."""
         for kf in load_known_findings():
